@@ -6,12 +6,13 @@ open PwVerif PwVerif.Tree PwVerif.Proto
 Line protocol of the ownership model.  Labels are written `=text` (so the empty label is `=`),
 "none" is `-`.
 
-    cfg f1 f2 f3 f4 f5 f6              variant flags (0/1), see `Tree.Cfg`
+    cfg f1 f2 f3 f4 f5 f6 f7           variant flags (0/1), see `Tree.Cfg`
     decl <id> leaf|macro|wf <strict 0/1> <reserved labels…>
     new <c> <=label> <p|->             add <p> <c> <=label|-> <-|0|1>
     setattr <p> <=key> <c>             setparent <c> <p|->
     remove <p> <c>                     removelbl <p> <=label>
     replace <p> <old> <new>            setstart <p> <ids…>
+    replacelbl <p> <=label> <new>
     newmacro <m> <=label> <p|-> <u> <starting…>   constructor of a macro with its inner child `u`
     syncnode <c> <=label> <p|->  /  syncchildren <p> <=key> <id> …   re-synchronise from an observed state
     q <op…>                            same op, prints only when it does not return `ok`
@@ -97,6 +98,10 @@ def parseOp (ws : List String) : Option Op :=
     match p.toNat?, o.toNat?, n.toNat? with
     | some p, some o, some n => some (.replace p o n)
     | _, _, _ => none
+  | ["replacelbl", p, l, n] =>
+    match p.toNat?, parseLabel l, n.toNat? with
+    | some p, some l, some n => some (.replaceLabel p l n)
+    | _, _, _ => none
   | "setstart" :: p :: l =>
     match p.toNat?, nats l with
     | some p, some l => some (.setStarting p l)
@@ -112,10 +117,11 @@ def applyOp (s : St) (op : Op) : St × Outcome :=
 
 def step (s : St) (ws : List String) : St × List String :=
   match ws with
-  | ["cfg", a, b, c, d, e, f] =>
-    match parseFlag a, parseFlag b, parseFlag c, parseFlag d, parseFlag e, parseFlag f with
-    | some a, some b, some c, some d, some e, some f => ({ s with cfg := ⟨a, b, c, d, e, f, 64⟩ }, [])
-    | _, _, _, _, _, _ => (s, ["bad-op"])
+  | ["cfg", a, b, c, d, e, f, g] =>
+    match parseFlag a, parseFlag b, parseFlag c, parseFlag d, parseFlag e, parseFlag f, parseFlag g with
+    | some a, some b, some c, some d, some e, some f, some g =>
+      ({ s with cfg := ⟨a, b, c, d, e, f, g, 64⟩ }, [])
+    | _, _, _, _, _, _, _ => (s, ["bad-op"])
   | "decl" :: id :: k :: st :: res =>
     match id.toNat?, parseKind k, parseFlag st, res.mapM parseLabel with
     | some id, some k, some st, some res =>
